@@ -1,0 +1,69 @@
+//go:build verif
+
+package store
+
+import (
+	"time"
+
+	"github.com/canopy-network/canopy/lib"
+	"github.com/cockroachdb/pebble/v2"
+	"github.com/cockroachdb/pebble/v2/sstable"
+	"github.com/cockroachdb/pebble/v2/vfs"
+)
+
+// This file is only compiled with `-tags verif`. It exports thin entry points for the
+// deterministic-simulation harness in /verif; it changes no production behaviour.
+
+// VerifPurgeBlockCache empties the process-wide block cache (simulates a fresh process).
+func VerifPurgeBlockCache() { blockCache.Purge() }
+
+// VerifPebbleOptions mirrors the option literal of NewStore() with the file system,
+// memtable size and cache substituted, so the harness can open the store on a simulated disk.
+func VerifPebbleOptions(config lib.Config, fs vfs.FS, log lib.LoggerI, memTableSize uint64, cache *pebble.Cache) *pebble.Options {
+	lvl := pebble.LevelOptions{
+		BlockSize:      64 << 10,
+		IndexBlockSize: 32 << 10,
+		Compression: func() *sstable.CompressionProfile {
+			return getCompressionProfile(config.CompressionProfile)
+		},
+	}
+	return &pebble.Options{
+		FS:                    fs,
+		MemTableSize:          memTableSize,
+		L0CompactionThreshold: 6,
+		L0StopWritesThreshold: 12,
+		MaxOpenFiles:          5000,
+		Cache:                 cache,
+		FormatMajorVersion:    pebble.FormatColumnarBlocks,
+		LBaseMaxBytes:         512 << 20,
+		Levels:                [7]pebble.LevelOptions{lvl, lvl, lvl, lvl, lvl, lvl, lvl},
+		TargetFileSizes:       [7]int64{32 << 20, 64 << 20, 128 << 20, 128 << 20, 128 << 20, 128 << 20, 128 << 20},
+		Logger:                log,
+		BlockPropertyCollectors: []func() pebble.BlockPropertyCollector{newVersionedPropertyCollector},
+		WALMinSyncInterval:      func() time.Duration { return time.Millisecond * 2 },
+	}
+}
+
+// VerifSMTCommit feeds a batch of set/delete operations (raw, un-hashed keys) to the tree
+// through the sequential or the parallel commit path.
+func VerifSMTCommit(s *SMT, sets map[string][]byte, dels []string, parallel bool) lib.ErrorI {
+	ops := make(map[uint64]valueOp, len(sets)+len(dels))
+	for k, v := range sets {
+		ops[lib.MemHash([]byte(k))] = valueOp{key: []byte(k), value: v, op: opSet}
+	}
+	for _, k := range dels {
+		ops[lib.MemHash([]byte(k))] = valueOp{key: []byte(k), op: opDelete}
+	}
+	if parallel {
+		return s.CommitParallel(ops)
+	}
+	return s.Commit(ops)
+}
+
+// VerifSMTKeyBits returns the key bit length of the tree.
+func VerifSMTKeyBits(s *SMT) int { return s.keyBitLength }
+
+// VerifStateCommitPrefixes returns the two store prefixes involved in tree storage.
+func VerifStateCommitPrefixes() (treeAsWritten, treeAsReadOnly []byte) {
+	return stateCommitIDPrefix, stateCommitmentPrefix
+}
